@@ -1075,6 +1075,12 @@ func checkHandlersStarted(c *Ctx, p *Prog, rule string) {
 							continue
 						}
 						bound := p.upParam(cmp.R.StripConv(), 0)
+						if bp, isPar := bound.StripConv().V.(*ssa.Parameter); isPar && bound.StripConv().Op == "param" {
+							// handed to the goroutine with its go statement (go smpl.main(ctx, opts.HandlersQuantity))
+							if a, okA := goEntryArg(p, bp.Parent(), bp); okA {
+								bound = p.Sym(a)
+							}
+						}
 						_, path, okp := bound.StripConv().FieldPath()
 						wantLC := int64(1) // test after the body: iter+1 < N (the rotated form of `for range N`)
 						if b != e.Stmt.Block() && b.Dominates(e.Stmt.Block()) {
